@@ -52,12 +52,57 @@ Proof.
   rewrite Ha in Hg. cbn in Hg. inversion Hg. reflexivity.
 Qed.
 
+(** * the root keeps the system default strategy (specs never change) *)
+Definition RootS (s : state) : Prop := forall x0, get s 0 = Some x0 -> sp_strategy (a_spec x0) = 0%N.
+
+Lemma RootS_mstep s m : RInv s -> RootS s -> RootS (mstep s m).
+Proof.
+  intros (Ra & _) HS x0' Hg'. destruct Ra as (x0 & Hg0 & _). specialize (HS x0 Hg0).
+  assert (Hsp : forall s1 x1, softT s s1 -> get s1 0 = Some x1 -> a_spec x1 = a_spec x0).
+  { intros s1 x1 Hs H1. destruct (softT_get _ _ _ _ Hs Hg0) as (y & Hy & (_ & _ & _ & _ & _ & _ & _ & E)). congruence. }
+  destruct (mstep_cases s m) as [Hq|[(t & i & rest & pre & s1 & Hp & Hpl & Hf & Hu & Hq & _ & E)|[(a & x & e & -> & Hg & Hc)|(t & i & rest & -> & Hp & Hyl & Hq & E)]]].
+  - rewrite (Hsp _ _ (proj1 (proj2 (proj2 (proj2 Hq)))) Hg'). exact HS.
+  - rewrite E in Hg'. pose proof (proj1 (proj2 (proj2 (proj2 Hq)))) as Hs. destruct t as [a|j].
+    + cbn [set_pend] in Hg'. unfold with_actor in Hg'. destruct (get s1 a) as [xa|] eqn:Ea; [|rewrite (Hsp _ _ Hs Hg'); exact HS].
+      destruct (Nat.eq_dec a 0) as [->|Hne].
+      * rewrite (get_set_same' _ _ _ _ Ea) in Hg'. inversion Hg'; subst. cbn. rewrite (Hsp _ _ Hs Ea). exact HS.
+      * rewrite get_set_other in Hg' by exact Hne. rewrite (Hsp _ _ Hs Hg'). exact HS.
+    + unfold get in Hg'. rewrite set_pend_TX_actors in Hg'. rewrite (Hsp _ _ Hs Hg'). exact HS.
+  - cbn [mstep] in Hg'. rewrite Hg, Hc in Hg'.
+    assert (Hgb : get (set_actor s a (busy x)) a = Some (busy x)) by (apply (get_set_same' s a _ x Hg)).
+    destruct (dispatch_effect _ a (busy x) e Hgb) as (y & Hdf & Ha & _).
+    destruct (dispatch (set_actor s a (busy x)) a (busy x) e) as [s1 ins]. cbn [fst] in Ha.
+    assert (Hy : get s1 a = Some y) by (unfold get; rewrite Ha; apply nth_upd_eq; cbn; rewrite upd_length; eapply nth_error_lt; exact Hg).
+    rewrite (set_pend_TA _ _ _ _ Hy) in Hg'. destruct (Nat.eq_dec a 0) as [->|Hne].
+    + rewrite (get_set_same' _ _ _ _ Hy) in Hg'. inversion Hg'; subst. cbn. rewrite (df_spec _ _ Hdf). cbn. assert (x = x0) by congruence; subst. exact HS.
+    + rewrite get_set_other in Hg' by exact Hne. unfold get in Hg'. rewrite Ha in Hg'. cbn [set_actor actors] in Hg'. rewrite upd_upd, nth_upd_neq in Hg' by exact Hne.
+      assert (x0' = x0) by (unfold get in Hg0; congruence). subst. exact HS.
+  - rewrite E in Hg'. destruct (get s (self_of t)) as [x|] eqn:Hg.
+    + destruct (astep_table s t i rest x Hg Hp) as (_ & y & news & Hy & _ & _ & Ha & _). cbv zeta in *.
+      unfold get in Hg'. rewrite Ha in Hg'. rewrite nth_error_app1 in Hg' by (rewrite upd_length; eapply nth_error_lt; exact Hg0).
+      destruct (Nat.eq_dec (self_of t) 0) as [E0|Hne].
+      * rewrite E0 in *. rewrite nth_upd_eq in Hg' by (eapply nth_error_lt; exact Hg0). inversion Hg'; subst x0'.
+        assert (x = x0) by congruence; subst x. destruct t; cbn [pushed upd_pend a_spec]; rewrite (lu_spec _ _ _ Hy); cbn [popped upd_pend a_spec]; exact HS.
+      * rewrite nth_upd_neq in Hg' by exact Hne. assert (x0' = x0) by (unfold get in Hg0; congruence). subst. exact HS.
+    + exfalso. destruct t as [a|j]; cbn [self_of] in *.
+      * destruct (pend_of_TA_cons _ _ _ _ Hp) as (x & Hgx & _). congruence.
+      * congruence.
+Qed.
+
+Lemma RootS_init scs : RootS (init_with scs).
+Proof.
+  intros x0 Hg. unfold init_with, get in Hg.
+  assert (Ha : forall scs s i, actors (set_exts s i scs) = actors s).
+  { clear. induction scs as [|sc r IH]; intros s i; cbn [set_exts]; [reflexivity|]. rewrite IH. apply set_pend_TX_actors. }
+  rewrite Ha in Hg. cbn in Hg. inversion Hg. reflexivity.
+Qed.
+
 (** * well-formed contexts *)
 Definition is_child_ref (s : state) (q : aid) (r : rref) : Prop :=
-  exists d xd, r = RObj d /\ get s d = Some xd /\ (a_parent xd = Some q \/ unreg s d).
+  exists d xd, r = RObj d /\ d <> 0 /\ get s d = Some xd /\ (a_parent xd = Some q \/ unreg s d).
 Definition lvl_ok (s : state) (b : aid) (c1 : supctx) : Prop :=
   match c1 with SupCtx ch1 ts1 _ =>
-    (forall r, In r ts1 -> is_child_ref s b r) /\ (In ch1 ts1 \/ exists d, ch1 = RObj d /\ unreg s d)
+    (forall r, In r ts1 -> is_child_ref s b r) /\ (In ch1 ts1 \/ exists d, ch1 = RObj d /\ d <> 0 /\ unreg s d)
   end.
 Fixpoint ctx_sub_ok (s : state) (c : supctx) : Prop :=
   match c with SupCtx ch ts sub =>
@@ -67,12 +112,12 @@ Fixpoint ctx_sub_ok (s : state) (c : supctx) : Prop :=
     end
   end.
 Definition own_report (s : state) (self : aid) (c : supctx) : Prop :=
-  match c with SupCtx ch ts _ => ch = RObj self /\ ts = [] end /\ ctx_sub_ok s c.
+  self <> 0 /\ match c with SupCtx ch ts _ => ch = RObj self /\ ts = [] end /\ ctx_sub_ok s c.
 Definition msup_at (s : state) (q : aid) (c : supctx) : Prop :=
   match c with SupCtx ch ts _ => ts = [] /\ is_child_ref s q ch end /\ ctx_sub_ok s c.
 Definition sup_ok (s : state) (q : aid) (c : supctx) (targets : list rref) : Prop :=
   match c with SupCtx ch _ _ =>
-    is_child_ref s q ch /\ (forall r, In r targets -> is_child_ref s q r) /\ (In ch targets \/ exists d, ch = RObj d /\ unreg s d)
+    is_child_ref s q ch /\ (forall r, In r targets -> is_child_ref s q r) /\ (In ch targets \/ exists d, ch = RObj d /\ d <> 0 /\ unreg s d)
   end /\ ctx_sub_ok s c.
 Definition land_ok (s : state) (self : aid) (mb : mbox) : Prop :=
   match mb with
@@ -88,8 +133,9 @@ Definition xi_ok (s : state) (self : aid) (i : instr) : Prop :=
   | IEnqR sys mb snd m => forall c, m = MSup c -> own_report s self c /\ land_ok s self mb
   | IEnqAny _ _ _ m => forall c, m <> MSup c
   | IEnqMb b e => xe_ok s b e
-  | ISupPause c d rem done => sup_ok s self c (rem ++ done)
-  | ISupApply c d targets => sup_ok s self c targets
+  | ISupPause c d rem done => sup_ok s self c (rem ++ done) /\ (self = 0 -> d = DStop)
+  | ISupApply c d targets => sup_ok s self c targets /\ (self = 0 -> d = DStop)
+  | IFailed => self <> 0
   | _ => True
   end.
 Definition xrec_ok (s : state) (a : aid) (x : actor) : Prop :=
@@ -101,14 +147,14 @@ Definition XI (s : state) : Prop :=
 (** ** monotonicity *)
 Lemma is_child_ref_mono s m q r : is_child_ref s q r -> is_child_ref (mstep s m) q r.
 Proof.
-  intros (d & xd & -> & Hg & H). destruct (idT_mstep s m d xd Hg ltac:(tauto)) as (xd' & Hg' & _ & Hp).
-  exists d, xd'. split; [reflexivity|split; [exact Hg'|]]. destruct H as [H|H]; [left; congruence|right; apply unreg_mono; exact H].
+  intros (d & xd & -> & Hd0 & Hg & H). destruct (idT_mstep s m d xd Hg ltac:(tauto)) as (xd' & Hg' & _ & Hp).
+  exists d, xd'. split; [reflexivity|split; [exact Hd0|split; [exact Hg'|]]]. destruct H as [H|H]; [left; congruence|right; apply unreg_mono; exact H].
 Qed.
 Lemma lvl_ok_mono s m b c1 : lvl_ok s b c1 -> lvl_ok (mstep s m) b c1.
 Proof.
   destruct c1 as [ch ts sub]. intros [H1 H2]. split.
   - intros r Hr. apply is_child_ref_mono. auto.
-  - destruct H2 as [H|(d & -> & H)]; [left; exact H|right; exists d; split; [reflexivity|apply unreg_mono; exact H]].
+  - destruct H2 as [H|(d & -> & Hd & H)]; [left; exact H|right; exists d; split; [reflexivity|split; [exact Hd|apply unreg_mono; exact H]]].
 Qed.
 Lemma ctx_sub_ok_mono s m c : ctx_sub_ok s c -> ctx_sub_ok (mstep s m) c.
 Proof.
@@ -116,14 +162,14 @@ Proof.
   intros [(b & -> & Hl) Hs]. split; [exists b; split; [reflexivity|apply lvl_ok_mono; exact Hl]|apply IH; exact Hs].
 Qed.
 Lemma own_report_mono s m self c : own_report s self c -> own_report (mstep s m) self c.
-Proof. intros [H1 H2]. split; [exact H1|apply ctx_sub_ok_mono; exact H2]. Qed.
+Proof. intros (H0 & H1 & H2). split; [exact H0|split; [exact H1|apply ctx_sub_ok_mono; exact H2]]. Qed.
 Lemma msup_at_mono s m q c : msup_at s q c -> msup_at (mstep s m) q c.
 Proof. destruct c as [ch ts sub]. intros [[H1 H2] H3]. split; [split; [exact H1|apply is_child_ref_mono; exact H2]|apply ctx_sub_ok_mono; exact H3]. Qed.
 Lemma sup_ok_mono s m q c ts : sup_ok s q c ts -> sup_ok (mstep s m) q c ts.
 Proof.
   destruct c as [ch ts0 sub]. intros [(H1 & H2 & H3) H4]. split; [split; [apply is_child_ref_mono; exact H1|split]|apply ctx_sub_ok_mono; exact H4].
   - intros r Hr. apply is_child_ref_mono. auto.
-  - destruct H3 as [H|(d & -> & H)]; [left; exact H|right; exists d; split; [reflexivity|apply unreg_mono; exact H]].
+  - destruct H3 as [H|(d & -> & Hd & H)]; [left; exact H|right; exists d; split; [reflexivity|split; [exact Hd|apply unreg_mono; exact H]]].
 Qed.
 Lemma land_ok_mono s m self mb : land_ok s self mb -> land_ok (mstep s m) self mb.
 Proof. destruct mb; cbn [land_ok]; auto; apply is_child_ref_mono. Qed.
@@ -136,8 +182,8 @@ Proof.
     destruct (idT_mstep s m a x Hg ltac:(tauto)) as (x' & Hg' & _ & Hp). exists x'. split; [exact Hg'|]. unfold rref_parent. rewrite Hp. exact Hr.
   - intros H c Hc. destruct (H c Hc) as [Ho Hl]. split; [apply own_report_mono; exact Ho|apply land_ok_mono; exact Hl].
   - apply xe_ok_mono.
-  - apply sup_ok_mono.
-  - apply sup_ok_mono.
+  - intros [H1 H2]. split; [apply sup_ok_mono; exact H1|exact H2].
+  - intros [H1 H2]. split; [apply sup_ok_mono; exact H1|exact H2].
 Qed.
 
 (** ** the envelopes a record holds across one atomic instruction *)
@@ -212,13 +258,14 @@ Qed.
 
 (** the fronts: only [IFailed] and an escalating [ISupApply] create a report, the pause loop hands its context on *)
 Lemma xexec1_front S s t h i x :
-  get s (self_of t) = Some x -> (exists xS, get S (self_of t) = Some xS /\ a_parent xS = a_parent x) ->
+  RInv S -> get s (self_of t) = Some x -> (exists xS, get S (self_of t) = Some xS /\ a_parent xS = a_parent x) ->
   Forall (xe_ok S (self_of t)) (envs x) -> xi_ok S (self_of t) i ->
   Forall (xi_ok S (self_of t)) (snd (exec1 s t h i)).
 Proof.
-  intros Hg (xS & HgS & HpS) Hok Hi.
+  intros HRS Hg (xS & HgS & HpS) Hok Hi.
   pose proof (proj1 (envs_ok_iff _ x) Hok) as (Osq & Ouq & Oh & Ost & Ocur).
-  assert (Hnm : forall (P : supctx -> Prop) m, (forall c, m <> MSup c) -> forall c, m = MSup c -> P c) by (intros P m H c E; exfalso; exact (H c E)).
+  assert (Hnonroot : forall p, a_parent x = Some p -> self_of t <> 0).
+  { intros p Hp E0. destruct HRS as ((x0 & Hg0 & Hp0 & _) & _). rewrite E0 in HgS. assert (xS = x0) by congruence; subst. congruence. }
   unfold exec1. rewrite Hg.
   destruct i; cbn [snd]; try (repeat constructor; fail).
   - (* ISupPause *) destruct remaining; [|repeat constructor]. cbn [snd]. constructor; [|constructor]. cbn [xi_ok app] in *. exact Hi.
@@ -243,15 +290,18 @@ Proof.
     + constructor; [|repeat constructor]. cbn [xi_ok]. intros c Hc. discriminate Hc.
     + destruct (alookup (subscribers s ty) (a_path x)); constructor.
     + destruct (nlookup (subs s) ty); constructor.
-  - destruct (a_zombie x); [constructor|]. destruct (a_parent x).
+  - (* IBeh *)
+    destruct (a_zombie x); [constructor|]. destruct (a_parent x) as [p|] eqn:Hpx.
     + destruct (take_until_panic acts) as [pre pan]. cbn [snd]. apply Forall_app. split; [apply Forall_map_IAct; intros; exact I|].
-      destruct pan; [|constructor]. destruct r; try (repeat constructor; fail). destruct (a_state x); try constructor.
-      destruct (ref_eq s who (RObj (self_of t))); repeat constructor.
+      assert (Hf : Forall (xi_ok S (self_of t)) [IFailed]) by (constructor; [cbn [xi_ok]; apply (Hnonroot p eq_refl)|constructor]).
+      destruct pan; [|constructor]. destruct r; try exact Hf; try constructor. destruct (a_state x); try constructor.
+      destruct (ref_eq s who (RObj (self_of t))); [constructor|exact Hf].
     + destruct m; try constructor. destruct (ref_eq s who (RObj (self_of t))); constructor.
   - (* IFailed *)
+    cbn [xi_ok] in Hi.
     repeat (apply Forall_cons; [cbn [xi_ok]; try exact I|]); try apply Forall_nil.
     intros c Hc. inversion Hc; subst c. split; [exists xS; split; [exact HgS|unfold rref_parent; rewrite HpS; reflexivity]|].
-    split; [split; reflexivity|exact I].
+    split; [exact Hi|split; [split; reflexivity|exact I]].
   - destruct (subscribers s ty); [constructor|]. constructor; [|constructor]. cbn [xi_ok]. intros c Hc. discriminate.
   - destruct (a_children x); cbn [app]; repeat (apply Forall_cons; [cbn [xi_ok]; try exact I; try (intros c0 Hc0; discriminate)|]); apply Forall_nil.
   - destruct (a_zombie x); [repeat constructor|]. destruct (ref_eq s who (RObj (self_of t))); repeat constructor.
@@ -260,19 +310,18 @@ Proof.
     destruct (a_watchers x), (a_parent x); cbn [app]; repeat (apply Forall_cons; [cbn [xi_ok]; try exact I; try (intros c0 Hc0; discriminate)|]); apply Forall_nil.
   - destruct (a_hooks x) as [|[[h1 h2] h3] rest]; [repeat constructor|]. destruct (h2 && h3); repeat constructor.
   - (* ISupApply *)
-    cbn [xi_ok] in Hi. destruct c as [ch ts0 sub]. destruct Hi as [(Hc1 & Hc2 & Hc3) Hc4].
+    cbn [xi_ok] in Hi. destruct Hi as [Hi Hroot]. destruct c as [ch ts0 sub]. destruct Hi as [(Hc1 & Hc2 & Hc3) Hc4].
     assert (Hplain : forall (f : rref -> list instr) l, (forall r, Forall (xi_ok S (self_of t)) (f r)) -> Forall (xi_ok S (self_of t)) (flat_map f l))
       by (intros f l H; apply Forall_flat_map; intros; apply H).
+    assert (Hesc : self_of t <> 0 ->
+      Forall (xi_ok S (self_of t)) [IPauseSt; IEnq true (rref_parent x) (RObj (self_of t)) (MSup (SupCtx (RObj (self_of t)) [] (Some (SupCtx ch targets sub)))); IEnqDone]).
+    { intros Hn0. repeat (apply Forall_cons; [cbn [xi_ok]; try exact I|]); try apply Forall_nil.
+      intros c Hc. inversion Hc; subst c. split; [exists xS; split; [exact HgS|unfold rref_parent; rewrite HpS; reflexivity]|].
+      split; [exact Hn0|]. split; [split; reflexivity|]. cbn [ctx_sub_ok]. split; [|exact Hc4]. exists (self_of t). split; [reflexivity|]. cbn [lvl_ok]. split; assumption. }
     destruct d; cbn [snd is_graceful negb];
       try (repeat first [apply Forall_app; split | apply Hplain; intros r; repeat (apply Forall_cons; [cbn [xi_ok]; try exact I; try (intros c0 Hc0; discriminate)|]); apply Forall_nil | apply Forall_nil]; fail).
-    + (* DEscalate *)
-      repeat (apply Forall_cons; [cbn [xi_ok]; try exact I|]); try apply Forall_nil.
-      intros c Hc. inversion Hc; subst c. split; [exists xS; split; [exact HgS|unfold rref_parent; rewrite HpS; reflexivity]|].
-      split; [split; reflexivity|]. cbn [ctx_sub_ok]. split; [|exact Hc4]. exists (self_of t). split; [reflexivity|]. cbn [lvl_ok]. split; assumption.
-    + (* DInvalid *)
-      repeat (apply Forall_cons; [cbn [xi_ok]; try exact I|]); try apply Forall_nil.
-      intros c Hc. inversion Hc; subst c. split; [exists xS; split; [exact HgS|unfold rref_parent; rewrite HpS; reflexivity]|].
-      split; [split; reflexivity|]. cbn [ctx_sub_ok]. split; [|exact Hc4]. exists (self_of t). split; [reflexivity|]. cbn [lvl_ok]. split; assumption.
+    + apply Hesc. intros E0. specialize (Hroot E0). discriminate Hroot.
+    + apply Hesc. intros E0. specialize (Hroot E0). discriminate Hroot.
 Qed.
 
 (** ** onSupervise: the targets are children of the supervisor and contain the failed child (unless released) *)
@@ -292,21 +341,22 @@ Proof.
   intros (Ra & Rb & _) [K10 K9] Hg Hch Hm. destruct c as [ch ts sub]. destruct Hm as [[Hts Hcr] Hsub]. split; [|exact Hsub]. rewrite app_nil_r.
   split; [exact Hcr|split].
   - intros r Hr. apply in_map_iff in Hr. destruct Hr as ([p c0] & <- & Hin). cbn [snd]. rewrite <- Hch in Hin.
-    destruct (K10 a xS p c0 Hg Hin) as (xc & Hxc & Hp & _). exists c0, xc. auto.
-  - destruct Hcr as (d & xd & -> & Hgd & [Hp|Hu]); [|right; exists d; split; [reflexivity|exact Hu]].
-    destruct (regd_dec S d xd) as [Hr|Hn]; [|right; exists d; split; [reflexivity|exists xd; split; assumption]].
-    left. assert (Hne : d <> 0). { intros ->. destruct Ra as (x0 & Hg0 & Hp0 & _). assert (xd = x0) by congruence; subst. congruence. }
-    destruct (K9 d xd Hgd Hne Hr) as (q & xq & Hq & Hxq & Hlk). assert (q = a) by congruence; subst q. assert (xq = xS) by congruence; subst xq.
+    destruct (K10 a xS p c0 Hg Hin) as (xc & Hxc & Hp & _). exists c0, xc. split; [reflexivity|]. split; [|split; [exact Hxc|left; exact Hp]].
+    intros ->. destruct Ra as (x0 & Hg0 & Hp0 & _). assert (xc = x0) by congruence; subst. congruence.
+  - destruct Hcr as (d & xd & -> & Hne & Hgd & [Hp|Hu]); [|right; exists d; split; [reflexivity|split; [exact Hne|exact Hu]]].
+    destruct (regd_dec S d xd) as [Hr|Hn]; [|right; exists d; split; [reflexivity|split; [exact Hne|exists xd; split; assumption]]].
+    left. destruct (K9 d xd Hgd Hne Hr) as (q & xq & Hq & Hxq & Hlk). assert (q = a) by congruence; subst q. assert (xq = xS) by congruence; subst xq.
     rewrite Hch in Hlk. apply (in_map_snd_alookup _ _ _ Hlk).
 Qed.
 
 Lemma xdispatch S s a x e xS :
   RInv S -> KInv S -> get s a = Some x -> get S a = Some xS -> a_children xS = a_children x ->
+  (a = 0 -> sp_strategy (a_spec x) = 0%N) ->
   Forall (xe_ok S a) (envs x) -> xe_ok S a e ->
   (exists y, get (fst (dispatch s a x e)) a = Some y /\ Forall (xe_ok S a) (envs y)) /\
   Forall (xi_ok S a) (snd (dispatch s a x e)).
 Proof.
-  intros HR HK Hg HgS Hch Hok He.
+  intros HR HK Hg HgS Hch Hstrat Hok He.
   assert (Hl : a < length (actors s)) by (eapply nth_error_lt; exact Hg).
   pose proof (proj1 (envs_ok_iff _ x) Hok) as (Osq & Ouq & Oh & Ost & Ocur).
   assert (Hkill : forall k p, xe_ok S a {| e_sys := true; e_sender := e_sender e; e_msg := MKill k p |}) by (intros k p c0 Hc0; discriminate Hc0).
@@ -322,6 +372,7 @@ Proof.
             cbn [set_mb set_state set_restarting set_decisions set_watchers upd_local a_sq a_uq a_stash a_cur held a_cons];
             (split; [|split; [|split; [|split]]]); auto; try apply Forall_nil; intros e0 He0; injection He0 as <-; first [exact He | apply Hkill] ]
   | repeat (apply Forall_cons; [cbn [xi_ok]; first [exact I | apply Hdl | (intros c0 Hc0; discriminate Hc0) | idtac]|]); try apply Forall_nil ]).
+  all: try (split; [|intros E0; first [reflexivity | (specialize (Hstrat E0); congruence)]]).
   all: try (match goal with
             | H : e_msg ?e0 = MSup ?c, He' : xe_ok _ _ ?e0 |- sup_ok _ _ _ (map _ _ ++ []) => eapply sup_ok_children; eauto
             | H : e_msg ?e0 = MSup ?c, He' : xe_ok _ _ ?e0 |- sup_ok _ _ _ _ => apply (sup_ok_single S a c (He' c H))
@@ -329,16 +380,338 @@ Proof.
 Qed.
 
 (** ** an enqueue lands where the context is well located *)
-Lemma xland_R S self sys mb snd m :
-  xi_ok S self (IEnqR sys mb snd m) ->
-  xe_ok S (fst (landing mb {| e_sys := sys; e_sender := snd; e_msg := m |})) (Core.snd (landing mb {| e_sys := sys; e_sender := snd; e_msg := m |})).
+Lemma xland_R S self sys mb sdr m :
+  xi_ok S self (IEnqR sys mb sdr m) ->
+  xe_ok S (fst (landing mb {| e_sys := sys; e_sender := sdr; e_msg := m |})) (snd (landing mb {| e_sys := sys; e_sender := sdr; e_msg := m |})).
 Proof.
-  intros H. destruct mb; cbn [landing fst Core.snd xi_ok land_ok] in *.
-  - intros c Hc. cbn in Hc. destruct (H c Hc) as [[Ho Hs] Hl]. destruct c as [ch ts sub]. destruct Ho as [-> ->]. split; [split; [reflexivity|exact Hl]|exact Hs].
-  - intros c Hc. cbn in Hc. destruct (H c Hc) as [[Ho Hs] Hl]. destruct c as [ch ts sub]. destruct Ho as [-> ->]. split; [split; [reflexivity|exact Hl]|exact Hs].
+  intros H. destruct mb; cbn [landing fst snd xi_ok land_ok] in *.
+  - intros c Hc. cbn in Hc. destruct (H c Hc) as [(Hn0 & Ho & Hs) Hl]. destruct c as [ch ts sub]. destruct Ho as [-> ->]. split; [split; [reflexivity|exact Hl]|exact Hs].
+  - intros c Hc. cbn in Hc. destruct (H c Hc) as [(Hn0 & Ho & Hs) Hl]. destruct c as [ch ts sub]. destruct Ho as [-> ->]. split; [split; [reflexivity|exact Hl]|exact Hs].
   - intros c Hc. discriminate Hc.
 Qed.
 
-Lemma xland_plain S mb sys snd m : (forall c, m <> MSup c) ->
-  xe_ok S (fst (landing mb {| e_sys := sys; e_sender := snd; e_msg := m |})) (Core.snd (landing mb {| e_sys := sys; e_sender := snd; e_msg := m |})).
-Proof. intros H. destruct mb; cbn [landing fst Core.snd]; intros c Hc; cbn in Hc; try (exfalso; exact (H c Hc)); discriminate Hc. Qed.
+Lemma xland_plain S mb sys sdr m : (forall c, m <> MSup c) ->
+  xe_ok S (fst (landing mb {| e_sys := sys; e_sender := sdr; e_msg := m |})) (snd (landing mb {| e_sys := sys; e_sender := sdr; e_msg := m |})).
+Proof. intros H. destruct mb; cbn [landing fst snd]; intros c Hc; cbn in Hc; try (exfalso; exact (H c Hc)); discriminate Hc. Qed.
+
+(** ** findMailbox on the parent's reference: the report is addressed to the real parent (or its sender has released its path) *)
+Lemma xresolve s self sys r sdr m x :
+  LI s -> RInv s -> KInv s -> RootC s -> get s self = Some x ->
+  xi_ok s self (IEnq sys r sdr m) -> xi_ok s self (IEnqR sys (fst (resolve s r)) sdr m).
+Proof.
+  intros HLI HR HK HC Hg H c Hc. destruct (H c Hc) as [(x' & Hg' & Hr) Ho]. split; [exact Ho|].
+  assert (x' = x) by congruence; subst x'. pose proof HR as (Ra & Rb & Rc & R1 & R8).
+  assert (Hunreg : ~ regd s self x -> unreg s self) by (intros Hn; exists x; split; assumption).
+  assert (Hself0 : self <> 0) by (apply Ho).
+  assert (Hchild : forall y, (a_parent x = Some y \/ unreg s self) -> is_child_ref s y (RObj self)) by (intros y Hy; exists self, x; auto).
+  subst r. unfold rref_parent. destruct (a_parent x) as [q|] eqn:Hpar.
+  - (* a proper parent *)
+    destruct (Rb self x Hg Hself0) as [(q' & Hq' & Hlt) _]. assert (q' = q) by congruence; subst q'.
+    assert (Hex : exists xq, get s q = Some xq).
+    { destruct (get s q) as [xq|] eqn:E; [eauto|]. apply nth_error_None in E. apply nth_error_lt in Hg. lia. }
+    destruct Hex as (xq & Hgq).
+    (* when self is registered, its parent is alive and (if not the root) registered *)
+    assert (Hpreg : regd s self x -> q <> 0 -> regd s q xq).
+    { intros Hrs Hq0. destruct (parent_alive s self x HLI HR HK Hg Hself0 Hrs) as (q2 & xq2 & Hq2 & _ & Hxq2 & _ & _ & _ & Hrq).
+      assert (q2 = q) by congruence; subst q2. assert (xq2 = xq) by congruence; subst xq2. apply Hrq. exact Hq0. }
+    unfold resolve. rewrite Hgq. destruct (a_cache xq) as [y|] eqn:Hcq; cbn [fst land_ok].
+    + destruct (Nat.eq_dec q 0) as [->|Hq0]; [rewrite (HC _ Hgq) in Hcq; discriminate|].
+      destruct (R8 q xq y Hgq Hcq) as [->|Hnq]; [apply Hchild; left; reflexivity|].
+      apply Hchild. right. apply Hunreg. intros Hrs. apply Hnq. apply Hpreg; assumption.
+    + destruct (alookup (reg s) (a_path xq)) as [y|] eqn:Hlk; cbn [fst land_ok].
+      * destruct (regd_dec s self x) as [Hrs|Hn]; [|apply Hchild; right; apply Hunreg; exact Hn].
+        destruct (Nat.eq_dec q 0) as [->|Hq0].
+        -- destruct Ra as (x0 & Hg0 & _ & Hp0). assert (xq = x0) by congruence; subst. rewrite Hp0, Rc in Hlk. discriminate.
+        -- pose proof (Hpreg Hrs Hq0) as Hrq. unfold regd in Hrq. assert (y = q) by congruence; subst. apply Hchild. left. reflexivity.
+      * destruct (path_eqb (a_path xq) []) eqn:Ep; cbn [fst land_ok]; [|exact I].
+        apply path_eqb_eq in Ep. apply Hchild. left. f_equal.
+        destruct (Nat.eq_dec q 0) as [->|Hq0]; [reflexivity|]. destruct (Rb q xq Hgq Hq0) as [_ Hpn]. congruence.
+  - (* no parent: only the root, which never reports *)
+    exfalso. destruct (Rb self x Hg Hself0) as [(q & Hq & _) _]. congruence.
+Qed.
+
+(** * the generic frame (as in Actor/ProofsMailMK.v) *)
+Lemma xrec_ok_mono s m a x : xrec_ok s a x -> xrec_ok (mstep s m) a x.
+Proof.
+  intros [H1 H2]. split; eapply Forall_impl; try eassumption; intros; [apply xe_ok_mono|apply xi_ok_mono]; assumption.
+Qed.
+
+Lemma xrec_ok_new s a x : is_new x -> xrec_ok s a x.
+Proof. intros (p & g & par & sp & ->). split; constructor. Qed.
+
+Lemma xrec_ok_lsame s a x y : lsame x y -> a_sq y = a_sq x -> a_uq y = a_uq x -> xrec_ok s a x -> xrec_ok s a y.
+Proof.
+  intros Hl Hs Hu [H1 H2]. rewrite Hl. split.
+  - apply envs_ok_iff. apply envs_ok_iff in H1. destruct H1 as (A & B & C & D & E). cbn [fw a_sq a_uq a_stash a_cur held a_cons].
+    rewrite Hs, Hu. (split; [|split; [|split; [|split]]]); auto.
+  - exact H2.
+Qed.
+
+(** pushing an acceptable envelope *)
+Lemma xrec_ok_push s a x e :
+  xe_ok s a e -> xrec_ok s a x ->
+  xrec_ok s a (set_mb x (if e_sys e then a_sq x ++ [e] else a_sq x) (if e_sys e then a_uq x else a_uq x ++ [e]) (a_paused x) (a_cons x) (a_cur x)).
+Proof.
+  intros He [H1 H2]. split; [|exact H2]. apply envs_ok_iff. apply envs_ok_iff in H1. destruct H1 as (A & B & C & D & E).
+  cbn [set_mb a_sq a_uq a_stash a_cur held a_cons]. destruct (e_sys e); (split; [|split; [|split; [|split]]]); auto; apply Forall_app; split; auto.
+Qed.
+
+(** all records acceptable w.r.t. a fixed state [s] *)
+Definition XAll (s : state) (s' : state) : Prop :=
+  (forall a x, get s' a = Some x -> xrec_ok s a x) /\
+  (forall j ex, nth_error (exts s') j = Some ex -> Forall (xi_ok s 0) (x_pend ex)).
+
+Lemma XAll_same s s' : actors s' = actors s -> exts s' = exts s -> XI s -> XAll s s'.
+Proof. intros Ha He [H1 H2]. split; [intros a x Hg; apply H1; unfold get in *; rewrite <- Ha; exact Hg|intros j ex Hn; apply (H2 j); rewrite <- He; exact Hn]. Qed.
+
+Lemma XAll_set_actor s s1 a y : XAll s s1 -> xrec_ok s a y -> XAll s (set_actor s1 a y).
+Proof.
+  intros [H1 H2] Hy. split; [|exact H2]. intros b x Hg.
+  destruct (Nat.eq_dec a b) as [<-|Hne].
+  - destruct (Nat.lt_ge_cases a (length (actors s1))) as [Hl|Hl].
+    + rewrite get_set_same in Hg by exact Hl. inversion Hg; subst. exact Hy.
+    + unfold get in Hg. cbn [set_actor actors] in Hg. assert (E : nth_error (upd (actors s1) a y) a = None) by (apply nth_error_None; rewrite upd_length; exact Hl). congruence.
+  - rewrite get_set_other in Hg by exact Hne. apply H1. exact Hg.
+Qed.
+
+Lemma XAll_push_mb s s1 a e : XAll s s1 -> xe_ok s a e -> XAll s (push_mb s1 a e).
+Proof.
+  intros H He. destruct (get s1 a) as [x|] eqn:Hg.
+  - rewrite (push_mb_get _ _ _ _ Hg). apply XAll_set_actor; [exact H|]. apply xrec_ok_push; [exact He|]. apply (proj1 H _ _ Hg).
+  - rewrite (push_mb_none _ _ _ Hg). exact H.
+Qed.
+
+Lemma XAll_resolve s s1 r : XAll s s1 -> XAll s (snd (resolve s1 r)).
+Proof.
+  intros H. destruct (resolve_shape s1 r) as [E|[E|(a & x & y & _ & Hg & _ & _ & E & _)]]; rewrite E; [exact H|exact H|].
+  apply XAll_set_actor; [exact H|]. eapply xrec_ok_lsame; [| | |apply (proj1 H _ _ Hg)]; reflexivity.
+Qed.
+
+(** replacing thread t's pending list by acceptable instructions *)
+Lemma XAll_set_pend s s1 t l :
+  XAll s s1 -> Forall (xi_ok s (self_of t)) l -> XAll s (set_pend s1 t l).
+Proof.
+  intros [H1 H2] Hl. destruct t as [a|j]; cbn [set_pend self_of] in *.
+  - unfold with_actor. destruct (get s1 a) as [x|] eqn:Hg; [|split; assumption].
+    apply XAll_set_actor; [split; assumption|]. destruct (H1 _ _ Hg) as [E _]. split; [exact E|exact Hl].
+  - destruct (nth_error (exts s1) j) as [ex|] eqn:Hn; [|split; assumption].
+    split; [exact H1|]. intros k exk Hk. cbn [set_ext exts] in Hk. destruct (Nat.eq_dec j k) as [<-|Hne].
+    + rewrite nth_upd_eq in Hk by (eapply nth_error_lt; exact Hn). inversion Hk; subst. exact Hl.
+    + rewrite nth_upd_neq in Hk by exact Hne. apply (H2 k). exact Hk.
+Qed.
+
+(** the pending list of a thread is acceptable for the thread's own context *)
+Lemma XAll_pend s s1 t i rest : XAll s s1 -> pend_of s1 t = i :: rest -> xi_ok s (self_of t) i /\ Forall (xi_ok s (self_of t)) rest.
+Proof.
+  intros [H1 H2] Hp. destruct t as [a|j]; cbn [self_of].
+  - destruct (pend_of_TA_cons _ _ _ _ Hp) as (x & Hg & Hpx). destruct (H1 _ _ Hg) as [_ E]. rewrite Hpx in E. inversion E; auto.
+  - destruct (pend_of_TX_cons _ _ _ _ Hp) as (ex & Hn & Hpx). pose proof (H2 _ _ Hn) as E. rewrite Hpx in E. inversion E; auto.
+Qed.
+
+
+
+Lemma XI_of_XAll s m : XAll s (mstep s m) -> XI (mstep s m).
+Proof.
+  intros [H1 H2]. split.
+  - intros a x Hg. apply xrec_ok_mono. apply H1. exact Hg.
+  - intros j ex Hn. eapply Forall_impl; [|apply (H2 j ex Hn)]. intros i Hi. apply xi_ok_mono. exact Hi.
+Qed.
+
+Lemma xrec_ok_set_mb_perm s a x sq uq co cu pa :
+  xrec_ok s a x -> Forall (xe_ok s a) sq -> Forall (xe_ok s a) uq ->
+  (forall e, co = CH e -> xe_ok s a e) -> (forall e, cu = Some e -> xe_ok s a e) ->
+  xrec_ok s a (set_mb x sq uq pa co cu).
+Proof.
+  intros [H1 H2] Hs Hu Hc Hcu. split; [|exact H2]. apply envs_ok_iff. apply envs_ok_iff in H1. destruct H1 as (A & B & C & D & E).
+  cbn [set_mb a_sq a_uq a_stash a_cur held a_cons]. (split; [|split; [|split; [|split]]]); auto.
+  unfold held. cbn [a_cons set_mb]. destruct co; try constructor; [apply Hc; reflexivity|constructor].
+Qed.
+
+(** pending lists of the external callers after one atomic step *)
+
+
+(** one atomic step other than the cleanup *)
+Lemma XAll_astep s t i rest :
+  RInv s -> XI s -> pend_of s t = i :: rest -> XAll s (astep s t i rest).
+Proof.
+  intros HR HM Hp. pose proof HM as [M1 M2].
+  destruct (RInv_self s t HR i rest Hp) as (x & Hg).
+  assert (Hl : self_of t < length (actors s)) by (eapply nth_error_lt; exact Hg).
+  destruct (astep_table s t i rest x Hg Hp) as (Hg0 & y & news & Hy & Hnews & Ha1 & Ha & _ & Hl0 & _). cbv zeta in *.
+  set (s0 := set_pend s t rest) in *.
+  destruct (XAll_pend s s t i rest (XAll_same s s eq_refl eq_refl HM) Hp) as [Hi Hrest].
+  assert (Hx0 : Forall (xe_ok s (self_of t)) (envs (popped t x rest))) by (rewrite envs_popped; apply (M1 _ _ Hg)).
+  destruct (xexec1_envs s s0 t (held_of s0 t) i _ Hg0 Hx0) as (y' & Hy' & Hyok).
+  assert (Hpar : exists xS, get s (self_of t) = Some xS /\ a_parent xS = a_parent (popped t x rest)) by (exists x; split; [exact Hg|destruct t; reflexivity]).
+  pose proof (xexec1_front s s0 t (held_of s0 t) i _ HR Hg0 Hpar Hx0 Hi) as Hfr.
+  assert (Hyy : y' = y).
+  { unfold get in Hy'. rewrite Ha1 in Hy'. rewrite nth_error_app1 in Hy' by (rewrite upd_length, Hl0; exact Hl).
+    rewrite nth_upd_eq in Hy' by (rewrite Hl0; exact Hl). congruence. }
+  subst y'.
+  set (front := snd (exec1 s0 t (held_of s0 t) i)) in *.
+  split.
+  - intros b xb Hgb. unfold get in Hgb. rewrite Ha in Hgb.
+    destruct (Nat.lt_ge_cases b (length (actors s))) as [Hlt|Hge].
+    + rewrite nth_error_app1 in Hgb by (rewrite upd_length; exact Hlt).
+      destruct (Nat.eq_dec (self_of t) b) as [<-|Hne].
+      * rewrite nth_upd_eq in Hgb by exact Hl. inversion Hgb; subst xb.
+        destruct t as [a|j]; cbn [pushed self_of] in *.
+        -- split; [rewrite envs_upd_pend; exact Hyok|]. cbn [upd_pend a_pend]. apply Forall_app. split; [exact Hfr|exact Hrest].
+        -- split; [exact Hyok|]. rewrite (lu_pend _ _ _ Hy). cbn [popped]. apply (M1 _ _ Hg).
+      * rewrite nth_upd_neq in Hgb by exact Hne. apply M1. exact Hgb.
+    + rewrite nth_error_app2 in Hgb by (rewrite upd_length; exact Hge). apply nth_error_In in Hgb.
+      rewrite Forall_forall in Hnews. apply xrec_ok_new. auto.
+  - intros k exk Hk. destruct (astep_exts s t i rest k exk Hk) as [[-> E]|(exo & Ho & E)].
+    + rewrite E. fold s0. fold front. apply Forall_app. split; [exact Hfr|].
+      unfold s0. cbn [set_pend]. destruct (pend_of_TX_cons _ _ _ _ Hp) as (ex & Hn & Hpx). rewrite Hn. cbn [set_ext exts].
+      rewrite nth_upd_eq by (eapply nth_error_lt; exact Hn). cbn [x_pend]. exact Hrest.
+    + rewrite E. apply (M2 k). exact Ho.
+Qed.
+
+
+
+Lemma nth_error_split_In {A} (l : list A) k x : nth_error l k = Some x ->
+  forall y, In y l <-> In y (firstn k l ++ skipn (S k) l) \/ y = x.
+Proof.
+  revert k. induction l as [|h t IH]; intros [|k] H y; cbn [nth_error firstn skipn app] in *; try discriminate.
+  - inversion H; subst. cbn. intuition (subst; auto).
+  - specialize (IH k H y). change (In y (h :: t) <-> In y (h :: (firstn k t ++ skipn (S k) t)) \/ y = x). cbn [In]. tauto.
+Qed.
+
+Lemma sup_ok_same_members s q c l1 l2 : (forall r, In r l1 <-> In r l2) -> sup_ok s q c l1 -> sup_ok s q c l2.
+Proof.
+  intros Heq. destruct c as [ch ts sub]. intros [(H1 & H2 & H3) H4]. split; [|exact H4]. split; [exact H1|split].
+  - intros r Hr. apply H2. apply Heq. exact Hr.
+  - destruct H3 as [H|H]; [left; apply Heq; exact H|right; exact H].
+Qed.
+
+Theorem XI_mstep s m : wf s -> LI s -> RInv s -> KInv s -> RootC s -> RootS s -> XI s -> XI (mstep s m).
+Proof.
+  intros W HLI HR HK HC HS HM. pose proof HM as [M1 M2].
+  assert (Hsame : forall s', actors s' = actors s -> exts s' = exts s -> mstep s m = s' -> XI (mstep s m)).
+  { intros s' Ha He E. apply XI_of_XAll. rewrite E. apply XAll_same; assumption. }
+  destruct m.
+  - (* MSysPop *)
+    apply XI_of_XAll. cbn [mstep step]. destruct (get s a) as [x|] eqn:Hg; [|apply XAll_same; auto].
+    pose proof (M1 _ _ Hg) as Hx. pose proof (proj1 (envs_ok_iff _ x) (proj1 Hx)) as (A & B & C & D & E).
+    destruct (a_cons x), (a_sq x) eqn:Hs; try (apply XAll_same; auto; fail);
+      (apply XAll_set_actor; [apply XAll_same; auto|]; apply xrec_ok_set_mb_perm; auto; try (inversion A; assumption);
+       try (intros e0 He0; inversion He0; subst; inversion A; assumption); try (intros e0 He0; discriminate He0); try apply Forall_nil).
+  - (* MLoadPaused *)
+    apply XI_of_XAll. cbn [mstep step]. destruct (get s a) as [x|] eqn:Hg; [|apply XAll_same; auto].
+    pose proof (M1 _ _ Hg) as Hx. pose proof (proj1 (envs_ok_iff _ x) (proj1 Hx)) as (A & B & C & D & E).
+    destruct (a_cons x); try (apply XAll_same; auto; fail).
+    apply XAll_set_actor; [apply XAll_same; auto|]. apply xrec_ok_set_mb_perm; auto. intros e0 He0. destruct (a_paused x); discriminate He0.
+  - (* MUserPop *)
+    apply XI_of_XAll. cbn [mstep step]. destruct (get s a) as [x|] eqn:Hg; [|apply XAll_same; auto].
+    pose proof (M1 _ _ Hg) as Hx. pose proof (proj1 (envs_ok_iff _ x) (proj1 Hx)) as (A & B & C & D & E).
+    destruct (a_cons x), (a_uq x) eqn:Hs; try (apply XAll_same; auto; fail);
+      (apply XAll_set_actor; [apply XAll_same; auto|]; apply xrec_ok_set_mb_perm; auto; try (inversion B; assumption);
+       try (intros e0 He0; inversion He0; subst; inversion B; assumption); try (intros e0 He0; discriminate He0); try apply Forall_nil).
+  - (* MHandle *)
+    apply XI_of_XAll. cbn [mstep]. destruct (get s a) as [x|] eqn:Hg; [|apply XAll_same; auto].
+    destruct (a_cons x) eqn:Hc; try (apply XAll_same; auto; fail).
+    assert (Hl : a < length (actors s)) by (eapply nth_error_lt; exact Hg).
+    pose proof (M1 _ _ Hg) as Hx. pose proof (proj1 (envs_ok_iff _ x) (proj1 Hx)) as (A & B & C & D & E).
+    assert (He : xe_ok s a e) by (unfold held in C; rewrite Hc in C; inversion C; assumption).
+    set (s0 := set_actor s a (busy x)).
+    assert (Hg0 : get s0 a = Some (busy x)) by (apply get_set_same; exact Hl).
+    assert (Hb : Forall (xe_ok s a) (envs (busy x))).
+    { apply envs_ok_iff. cbn [busy set_mb a_sq a_uq a_stash a_cur held a_cons]. (split; [|split; [|split; [|split]]]); auto; try apply Forall_nil. }
+    assert (Hst : a = 0 -> sp_strategy (a_spec (busy x)) = 0%N) by (intros ->; apply (HS _ Hg)).
+    destruct (xdispatch s s0 a (busy x) e x HR HK Hg0 Hg eq_refl Hst Hb He) as [(y & Hy & Hyok) Hins].
+    destruct (dispatch_effect s0 a (busy x) e Hg0) as (y2 & _ & Ha & _ & _ & Hex & _).
+    destruct (dispatch s0 a (busy x) e) as [s1 ins]. cbn [fst snd] in *.
+    rewrite (set_pend_TA _ _ _ _ Hy). split.
+    + intros b xb Hgb. destruct (Nat.eq_dec a b) as [<-|Hne].
+      * rewrite (get_set_same' _ _ _ _ Hy) in Hgb. inversion Hgb; subst xb. split; [rewrite envs_upd_pend; exact Hyok|exact Hins].
+      * rewrite get_set_other in Hgb by exact Hne. apply M1. unfold get in *. rewrite Ha in Hgb. unfold s0 in Hgb. cbn [set_actor actors] in Hgb.
+        rewrite upd_upd, nth_upd_neq in Hgb by exact Hne. exact Hgb.
+    + intros j ex Hn. cbn [set_actor exts] in Hn. rewrite Hex in Hn. apply (M2 j). exact Hn.
+  - (* MPush *)
+    apply XI_of_XAll. cbn [mstep step]. destruct (pend_of s t) as [|i rest] eqn:Hp; [apply XAll_same; auto|].
+    destruct (XAll_pend s s t i rest (XAll_same s s eq_refl eq_refl HM) Hp) as [Hi Hrest].
+    destruct i; try (apply XAll_same; auto; fail).
+    + rewrite deliver_eq. apply XAll_set_pend; [|exact Hrest]. apply XAll_push_mb; [apply XAll_same; auto|]. apply (xland_R s (self_of t)). exact Hi.
+    + apply XAll_set_pend; [|exact Hrest]. apply XAll_push_mb; [apply XAll_same; auto|]. exact Hi.
+    + destruct (nth_error tos c) as [r|]; [|apply XAll_same; auto].
+      pose proof (XAll_resolve s s r (XAll_same s s eq_refl eq_refl HM)) as Hr. destruct (resolve s r) as [mb s1]. cbn [snd] in Hr.
+      rewrite deliver_eq. apply XAll_set_pend.
+      * apply XAll_push_mb; [exact Hr|]. apply xland_plain. exact Hi.
+      * constructor; [exact I|]. destruct (firstn c tos ++ skipn (S c) tos); [exact Hrest|constructor; [exact Hi|exact Hrest]].
+    + destruct (nth_error remaining c) as [r|] eqn:Hnth; [|apply XAll_same; auto].
+      pose proof (XAll_resolve s s r (XAll_same s s eq_refl eq_refl HM)) as Hr. destruct (resolve s r) as [mb s1]. cbn [snd] in Hr.
+      rewrite deliver_eq. apply XAll_set_pend.
+      * apply XAll_push_mb; [exact Hr|]. apply xland_plain. intros c1 Hc1. discriminate Hc1.
+      * constructor; [exact I|]. constructor; [|exact Hrest]. cbn [xi_ok] in *. destruct Hi as [Hi Hroot]. split; [|exact Hroot].
+        eapply sup_ok_same_members; [|exact Hi]. intros r0. pose proof (nth_error_split_In _ _ _ Hnth r0) as E.
+        rewrite !in_app_iff in *. cbn [In]. intuition (subst; auto).
+  - (* MEnqDone *)
+    apply XI_of_XAll. cbn [mstep]. destruct (pend_of s t) as [|i rest] eqn:Hp; [apply XAll_same; auto|].
+    destruct (XAll_pend s s t i rest (XAll_same s s eq_refl eq_refl HM) Hp) as [Hi Hrest].
+    destruct i; try (apply XAll_same; auto; fail). apply XAll_set_pend; [apply XAll_same; auto|exact Hrest].
+  - (* MPauseSt *)
+    apply XI_of_XAll. cbn [mstep]. destruct (pend_of s t) as [|i rest] eqn:Hp; [apply XAll_same; auto|].
+    destruct (XAll_pend s s t i rest (XAll_same s s eq_refl eq_refl HM) Hp) as [Hi Hrest].
+    destruct i; try (apply XAll_same; auto; fail). apply XAll_set_pend; [|exact Hrest].
+    unfold with_actor. destruct (get s (self_of t)) as [x|] eqn:Hg; [|apply XAll_same; auto].
+    apply XAll_set_actor; [apply XAll_same; auto|]. destruct (M1 _ _ Hg) as [E1 E2]. split; [exact E1|exact E2].
+  - (* MResume1 *)
+    apply XI_of_XAll. cbn [mstep]. destruct (pend_of s t) as [|i rest] eqn:Hp; [apply XAll_same; auto|].
+    destruct (XAll_pend s s t i rest (XAll_same s s eq_refl eq_refl HM) Hp) as [Hi Hrest].
+    destruct i; try (apply XAll_same; auto; fail).
+    destruct (get s (self_of t)) as [x|] eqn:Hg; [|apply XAll_same; auto]. destruct (a_paused x).
+    + apply XAll_set_pend; [|constructor; [exact I|exact Hrest]].
+      apply XAll_set_actor; [apply XAll_same; auto|]. destruct (M1 _ _ Hg) as [E1 E2]. split; [exact E1|exact E2].
+    + apply XAll_set_pend; [apply XAll_same; auto|exact Hrest].
+  - (* MResume2 *)
+    apply XI_of_XAll. cbn [mstep]. destruct (pend_of s t) as [|i rest] eqn:Hp; [apply XAll_same; auto|].
+    destruct (XAll_pend s s t i rest (XAll_same s s eq_refl eq_refl HM) Hp) as [Hi Hrest].
+    destruct i; try (apply XAll_same; auto; fail). apply XAll_set_pend; [apply XAll_same; auto|exact Hrest].
+  - (* MAtomic *)
+    destruct (pend_of s t) as [|i rest] eqn:Hp; [apply (Hsame s); auto; cbn [mstep]; rewrite Hp; reflexivity|].
+    destruct (XAll_pend s s t i rest (XAll_same s s eq_refl eq_refl HM) Hp) as [Hi Hrest].
+    destruct (is_enq i) eqn:Hq.
+    + destruct i; try discriminate Hq. apply XI_of_XAll. cbn [mstep]. rewrite Hp.
+      apply XAll_set_pend; [apply XAll_resolve; apply XAll_same; auto|]. constructor; [|exact Hrest].
+      destruct (RInv_self s t HR _ _ Hp) as (x & Hg). apply (xresolve s (self_of t) sys to sender m x); assumption.
+    + destruct (yielding i) eqn:Hy.
+      * apply (Hsame s); auto. cbn [mstep]. rewrite Hp. destruct i; try discriminate Hy; try reflexivity; try discriminate Hq.
+        destruct remaining; [discriminate Hy|reflexivity].
+      * pose proof (mstep_atomic_exec s t i rest Hp Hy Hq) as E. apply XI_of_XAll. rewrite E. apply XAll_astep; assumption.
+Qed.
+
+Lemma XI_init scs : XI (init_with scs).
+Proof.
+  unfold init_with.
+  assert (Ha : forall scs s i, actors (set_exts s i scs) = actors s).
+  { clear. induction scs as [|sc r IH]; intros s i; cbn [set_exts]; [reflexivity|]. rewrite IH. apply set_pend_TX_actors. }
+  split.
+  - intros a x Hg. unfold get in Hg. rewrite Ha in Hg. destruct a as [|[|a]]; cbn in Hg; try discriminate. inversion Hg; subst. split; constructor.
+  - assert (H : forall scs s i, (forall j ex, nth_error (exts s) j = Some ex -> forall ins, In ins (x_pend ex) -> exists a, ins = IAct a) ->
+                 forall j ex, nth_error (exts (set_exts s i scs)) j = Some ex -> forall ins, In ins (x_pend ex) -> exists a, ins = IAct a).
+    { clear. induction scs as [|sc r IH]; intros s i Hs; cbn [set_exts]; [exact Hs|]. apply IH. intros j ex Hn ins Hin.
+      cbn [set_pend] in Hn. destruct (nth_error (exts s) i) as [exi|] eqn:Ei; [|eapply Hs; eauto].
+      cbn [set_ext exts] in Hn. destruct (Nat.eq_dec i j) as [<-|Hne].
+      - rewrite nth_upd_eq in Hn by (eapply nth_error_lt; exact Ei). inversion Hn; subst. cbn [x_pend] in Hin. apply in_map_iff in Hin. destruct Hin as (a & <- & _). eauto.
+      - rewrite nth_upd_neq in Hn by exact Hne. eapply Hs; eauto. }
+    intros j ex Hn. apply Forall_forall. intros ins Hin.
+    destruct (H scs (init_state (length scs)) 0) with (j := j) (ex := ex) (ins := ins) as (a & ->); auto.
+    + intros k exk Hk ins0 Hin0. cbn [init_state exts] in Hk. apply nth_error_In in Hk. apply repeat_spec in Hk. subst. destruct Hin0.
+    + exact I.
+Qed.
+
+Definition Base6 (s : state) : Prop := Base4 s /\ KInv s /\ RootC s /\ RootS s.
+Lemma Base6_init scs : Base6 (init_with scs).
+Proof. split; [apply Base4_init|split; [apply KInv_init|split; [apply RootC_init|apply RootS_init]]]. Qed.
+Lemma Base6_mstep s m : Base6 s -> Base6 (mstep s m).
+Proof.
+  intros (B & K & C & S). pose proof B as (W & I & R & M).
+  split; [apply Base4_mstep; exact B|split; [apply KInv_mstep; assumption|split; [apply RootC_mstep; assumption|apply RootS_mstep; assumption]]].
+Qed.
+
+Theorem XI_reachable s : reachable s -> XI s.
+Proof.
+  revert s. apply (micro_invariant_with Base6 XI); [apply Base6_init|apply Base6_mstep|apply XI_init|].
+  intros s m ((W & I & R & M) & K & C & S) HX. apply XI_mstep; assumption.
+Qed.
